@@ -2,7 +2,7 @@
 import nat
 
 RULE = ("one case = one seed = (generated model [forest of free/ball/hinge/slide bodies, contacts, equalities, tendons, actuators with "
-        "activation, sensors, mocap, keyframes, seeded integrator/solver/cone/jacobian/island/sleep options] or a repo model that loads "
+        "activation, sensors, mocap, keyframes, seeded integrator/solver/cone/jacobian/island/sleep options; 12% of the cases with the arena shrunk to 0.9-1.5 x the measured need] or a repo model that loads "
         "under the stub build) x (history of 6-40 ops: set ctrl / applied forces / mocap / equality toggles, step, forward, inverse, reset, "
         "reset-to-keyframe) x (twins manufactured at seeded points by copyData into new or used instance, copyState/setState into fresh, "
         "reset or used-and-poisoned instance, or replay of the whole call log); every fresh instance's arena is pre-filled with seeded "
